@@ -574,6 +574,58 @@ def r14_6_7(ctx, family: Optional[str] = None) -> None:
               "skid -> get_by_kid(skid); else pick_random_key + add_header('skid', skey.kid)", construct="_guess_sender_key")
 
 
+def r14_16(ctx) -> None:
+    """R14.16  "record its kid in the produced token's header": on the JSON producing side the key resolution may write the chosen key's kid into the
+    member's unprotected header (`set_kid`: a NEW dict when the member had none).  What is emitted as "header" must therefore be read from the
+    member object - `<member>.header`, the object handed to the key resolution - when the document is built, not from a local or from the caller's
+    input captured before the key was resolved."""
+    import re
+    eng = ctx.eng
+    P = eng.prog
+    from .common import resolve_all, in_family
+    gk = P.func("jwk:guess_key")
+    n = 0
+    for fn in P.all_functions():
+        if not in_family(fn, "jws") or fn.name == "<module>":
+            continue
+        stores = [(x, x.value) for x in fn_nodes(fn) if isinstance(x, ast.Assign) and len(x.targets) == 1 and isinstance(x.targets[0], ast.Subscript)
+                  and const_value(x.targets[0].slice) == "header"]
+        if not stores:
+            continue
+        # the objects handed to a key resolution in this function: find_key(obj) callbacks and guess_key(key, obj, ...)
+        guests = set()
+        for s_ in eng.cg.calls_in(fn):
+            if not isinstance(s_.node, ast.Call):
+                continue
+            if gk in s_.callees and len(s_.node.args) >= 2:
+                guests.add(norm(s_.node.args[1]))
+            elif isinstance(s_.node.func, ast.Name) and s_.node.func.id in fn.params and "key" in s_.node.func.id and len(s_.node.args) == 1:
+                guests.add(norm(s_.node.args[0]))
+            elif isinstance(s_.node.func, ast.Name) and s_.node.func.id == "find_key" and len(s_.node.args) == 1:
+                guests.add(norm(s_.node.args[0]))
+        if not guests:
+            continue  # a reader / a writer that resolves no key
+        for st, v in stores:
+            n += 1
+            texts = [norm(v)]
+            m0 = re.fullmatch(r"([A-Za-z_][\w.]*)\.header", texts[0])
+            ok = m0 is not None and m0.group(1) in guests
+            if not ok and isinstance(v, ast.Name):
+                # a local: every value it can hold is such an attribute read, made after the key was resolved
+                defs = [d_ for d_ in eng.flow._defs(fn).get(v.id, []) if d_[0] == "assign" and isinstance(d_[1], ast.expr)]
+                texts = [norm(d_[1]) for d_ in defs]
+                cfg_ = cfg_of(fn)
+                res_nodes = [cfg_.node_of(s_.node) for s_ in eng.cg.calls_in(fn) if isinstance(s_.node, ast.Call) and (gk in s_.callees or (isinstance(s_.node.func, ast.Name) and (
+                    s_.node.func.id == "find_key" or (s_.node.func.id in fn.params and "key" in s_.node.func.id))))]
+                res_nodes = [x_ for x_ in res_nodes if x_ is not None]
+                ok = bool(defs) and all((m_ := re.fullmatch(r"([A-Za-z_][\w.]*)\.header", t_)) is not None and m_.group(1) in guests for t_ in texts) and bool(res_nodes) \
+                    and all(cfg_.node_of(d_[1]) is not None and cfg_.must_pass(cfg_.entry, cfg_.node_of(d_[1]), res_nodes) for d_ in defs)
+            ctx.check(ok, "R14.16", fn, st, f"{fn.short} :: emitted header", f"the \"header\" member that is emitted is `{' | '.join(texts)[:80]}`, not the header of the member object the key was "
+                      f"resolved for ({sorted(guests)}): a kid recorded by the key resolution does not reach the token", "rv['header'] = member.header (read after the key was resolved)",
+                      construct=f"emitted unprotected header in {fn.short}")
+    ctx.count("R14.16", n, 2, "emitted JWS JSON header members on the producing side")
+
+
 def r14_14(ctx) -> None:
     """R14.14  "every key in a set has a kid", for sets of every size: KeySet.__init__ calls ensure_kid() on each element of the list it then
     stores, under no condition (a set with a single key is looked up by kid like any other - the producing side always records one)."""
@@ -638,8 +690,10 @@ def r14_15(ctx) -> None:
 def run(ctx) -> None:
     ctx.guard(r14_15)
     from .common import forwarding_discipline
+    ctx.guard(forwarding_discipline, "R14.17", ['private', 'params', 'parameters', 'value'], 8)  # "exporting it preserves every key": the export options reach each key as given (not as decided for an earlier key)
     ctx.guard(forwarding_discipline, "R14.12", ['key', 'obj', 'find_key', 'public_key', 'private_key'], 40)  # arguments are handed on under their own name (generic routing rule, rules/common.py)
     ctx.guard(r14_14)
+    ctx.guard(r14_16)
     ctx.guard(r14_1)
     ctx.guard(r14_2)
     ctx.guard(r14_10)
